@@ -45,3 +45,12 @@ Theorem C13_rejects : forall v t s a f c data,
   create_packet v t s a f c data = Err EValue.
 Proof. exact create_rejects. Qed.
 Print Assumptions C13_rejects.
+
+(* construction is injective: the packet determines all seven arguments — no two distinct in-range argument
+   tuples give the same bytes (nothing of the arguments is lost or folded together in the header) *)
+Theorem C13_injective : forall v t s a f c data v' t' s' a' f' c' data',
+  in_range v t s a f c data -> in_range v' t' s' a' f' c' data' ->
+  packet v t s a f c data = packet v' t' s' a' f' c' data' ->
+  v = v' /\ t = t' /\ s = s' /\ a = a' /\ f = f' /\ c = c' /\ data = data'.
+Proof. exact packet_injective. Qed.
+Print Assumptions C13_injective.
